@@ -14,6 +14,20 @@ use libhaystack::encoding::zinc::encode::to_zinc_string;
 use serde_json::{json, Value as J};
 
 /// Direction 1: the text libhaystack emits is a sentence of the grammar denoting v.
+/// one size witness in both directions; signature by top-level kind only (the shape of a 1000-wide
+/// value is not a useful class)
+fn size_witness_case(i: usize, tier: Tier) -> Verdict {
+    let v = &u::size_witnesses_cached(tier)[i];
+    let class = format!("size-witness:{}", v.kind_name());
+    emitted_is_sentence(v).map_err(|(s, d)| (format!("{s}:{class}"), d.chars().take(500).collect()))?;
+    let text = zinc_ref::write_canonical(v);
+    match guarded(|| from_str(&text)) {
+        Ok(Ok(back)) => crate::model::v::same(v, &crate::model::v::from_lib(&back)).map_err(|d| (format!("d2-decoded-other-value[]:{class}"), d.chars().take(500).collect())),
+        Ok(Err(e)) => Err((format!("d2-decode-error[]:{class}"), e.to_string())),
+        Err(p) => Err((format!("d2-decode-panic[]:{class}"), p)),
+    }
+}
+
 pub fn emitted_is_sentence(v: &V) -> Verdict {
     let lv = to_lib(v);
     let text = match guarded(|| to_zinc_string(&lv)) {
@@ -153,19 +167,12 @@ pub fn run(tier: Tier) -> i32 {
 
     // size witnesses: the library's text is a sentence denoting the value, and the reference
     // writer's canonical text decodes to it
-    let sw = u::size_witnesses_cached(tier);
-    let l = crate::engine::par_for_stack(sw.len(), 64 << 20, |i, local| {
-        check_value(&sw[i], local, true, &emitted_is_sentence);
+    let nsw = u::size_witnesses_cached(tier).len();
+    let l = crate::engine::par_for_stack(nsw, 64 << 20, |i, local| {
+        local.eval();
         local.count("size-witnesses");
-        let text = zinc_ref::write_canonical(&sw[i]);
-        match guarded(|| from_str(&text)) {
-            Ok(Ok(back)) => {
-                if let Err(d) = crate::model::v::same(&sw[i], &crate::model::v::from_lib(&back)) {
-                    local.fail(&format!("d2-decoded-other-value[]:{}", crate::model::shrink::shape_sig(&sw[i]).chars().take(80).collect::<String>()), json!({"value": to_json(&sw[i]), "choices": []}), d.chars().take(500).collect());
-                }
-            }
-            Ok(Err(e)) => local.fail(&format!("d2-decode-error[]:{}", crate::model::shrink::shape_sig(&sw[i]).chars().take(80).collect::<String>()), json!({"value": to_json(&sw[i]), "choices": []}), e.to_string()),
-            Err(p) => local.fail("d2-decode-panic[]:size-witness", json!({"value": to_json(&sw[i]), "choices": []}), p),
+        if let Err((sig, d)) = size_witness_case(i, tier) {
+            local.fail(&sig, json!({"size_witness": i, "tier": tier.name()}), d);
         }
     });
     run.absorb(l);
@@ -263,6 +270,10 @@ pub fn run(tier: Tier) -> i32 {
 }
 
 pub fn replay(case: &J) -> Verdict {
+    if let Some(i) = case["size_witness"].as_u64() {
+        let tier = if case["tier"] == "thorough" { Tier::Thorough } else { Tier::Quick };
+        return size_witness_case(i as usize, tier);
+    }
     let v = from_json(&case["value"]);
     if let Some(ch) = case.get("choices").and_then(|c| c.as_array()) {
         let choices: Vec<u32> = ch.iter().map(|x| x.as_u64().unwrap_or(0) as u32).collect();
